@@ -196,15 +196,8 @@ def check_normalize(run):
                      {"self": self_path, "keys": keys, "decl": decl, "yielded": got, "raised": err}))
     if not run.model_ok or not rows:
         return
-    text = NORM_HEADER + "Definition cases : list (path * list path * list ddep * (list path * bool)) := [\n%s ].\n" % ";\n".join(
-        r[0] for r in rows) + "Eval vm_compute in (find_indexes (fun c => negb (agrees c)) cases).\n"
-    rc, out = run.coq_eval("normalize", text)
-    bad = lib.parse_nat_list(out) if rc == 0 else None
     relation = "DepsPred.walk = what _normalize_test_dependencies yields (paths and predicates)"
-    if bad is None:
-        run.tie_broken(relation, detail="case file did not evaluate: " + out[-1200:])
-    for idx in (bad or [])[:2]:
-        run.tie_broken(relation, case=rows[idx][1])
+    _eval_sharded(run, "normalize", NORM_HEADER, "list (path * list path * list ddep * (list path * bool))", rows, relation)
 
 
 RESOLVE_HEADER = """From Coq Require Import List Arith Bool.
@@ -290,15 +283,27 @@ def check_expand_project(run):
                      {"keys": keys, "declared": table, "code": code, "resolved": res}))
     if not run.model_ok or not rows:
         return
-    text = RESOLVE_HEADER + ("Definition cases : list (list suite * list (path * list ddep) * (nat * list (path * list path))) := [\n%s ].\n"
-                             % ";\n".join(r[0] for r in rows)) + "Eval vm_compute in (find_indexes (fun c => negb (agrees c)) cases).\n"
-    rc, out = run.coq_eval("expandproject", text)
-    bad = lib.parse_nat_list(out) if rc == 0 else None
     relation = "Deps.resolve_tests_dependencies (DepsPred.expand_project decl suites) = the real resolve_tests_dependencies on declared paths and predicates"
-    if bad is None:
-        run.tie_broken(relation, detail="case file did not evaluate: " + out[-1200:])
-    for idx in (bad or [])[:2]:
-        run.tie_broken(relation, case=rows[idx][1])
+    _eval_sharded(run, "expandproject", RESOLVE_HEADER, "list (list suite * list (path * list ddep) * (nat * list (path * list path)))",
+                  rows, relation)
+
+
+def _eval_sharded(run, name, header, ty, rows, relation, size=400):
+    """rows = [(Gallina term, replay description)]: case files of at most `size` rows, compiled in parallel."""
+    import lib
+    shards = [rows[i:i + size] for i in range(0, len(rows), size)]
+    files = [("%s%d" % (name, k), header + "Definition cases : %s := [\n%s ].\n" % (ty, ";\n".join(r[0] for r in sh))
+              + "Eval vm_compute in (find_indexes (fun c => negb (agrees c)) cases).\n") for k, sh in enumerate(shards)]
+    reported = 0
+    for k, (rc, out) in enumerate(run.coq_eval_many(files)):
+        bad = lib.parse_nat_list(out) if rc == 0 else None
+        if bad is None:
+            run.tie_broken(relation, detail="case file did not evaluate: " + out[-1200:])
+            continue
+        for idx in bad:
+            if reported < 2:
+                run.tie_broken(relation, case=shards[k][idx][1])
+                reported += 1
 
 
 def _is_subsequence(a, b):
